@@ -244,3 +244,39 @@ func Fields(r parser.Rule) (out []Field) {
 	}
 	return out
 }
+
+// Detailed is a report together with the String() of the check instance that produced it.
+type Detailed struct {
+	Report reporter.Report
+	Check  string
+}
+
+// LintDetailed is Lint plus per-report attribution to the check instance.
+func LintDetailed(ctx context.Context, cmd config.ContextCommandVal, cfg config.Config, gen *config.PrometheusGenerator, entries []discovery.Entry) (out []Detailed, crash *Crash) {
+	defer catch("check", &crash)
+	ctx = context.WithValue(ctx, config.CommandKey, cmd)
+	ctx = context.WithValue(ctx, promapi.AllPrometheusServers, gen.Servers())
+	for _, s := range cfg.Check {
+		settings, _ := s.Decode()
+		ctx = context.WithValue(ctx, checks.SettingsKey(s.Name), settings)
+	}
+	var summary reporter.Summary
+	for _, entry := range entries {
+		switch {
+		case entry.PathError != nil && entry.State == discovery.Removed:
+			continue
+		case entry.Rule.Error.Err != nil && entry.State == discovery.Removed:
+			continue
+		}
+		for _, check := range cfg.GetChecksForEntry(ctx, gen, entry) {
+			for _, problem := range check.Check(ctx, entry, entries) {
+				before := len(summary.Reports())
+				summary.Report(reporter.Report{Path: entry.Path, ModifiedLines: entry.ModifiedLines, Rule: entry.Rule, Problem: problem, Owner: entry.Owner})
+				if rs := summary.Reports(); len(rs) > before {
+					out = append(out, Detailed{Report: rs[len(rs)-1], Check: check.String()})
+				}
+			}
+		}
+	}
+	return out, nil
+}
